@@ -325,19 +325,53 @@ ATTR_POSITIONS = [
 ]
 
 
+def spellings(x):
+    """The name and its other spellings: Python normalises identifiers (NFKC) while parsing, so a full-width low line or
+    letter spells the same attribute or builtin while the expression text does not contain the ASCII name."""
+    yield x
+    seen = {x}
+    for i, ch in enumerate(x):
+        alt = '\uff3f' if ch == '_' else (chr(ord(ch) - 0x20 + 0xff00) if ch.isascii() and ch.isalpha() else None)
+        if alt and (i in (0, 1, len(x) - 1, len(x) - 2) or ch != '_'):
+            y = x[:i] + alt + x[i + 1:]
+            if y not in seen and (ch == '_' or i in (0, len(x) // 2)):
+                seen.add(y)
+                yield y
+    if x.startswith('__') and x.endswith('__') and len(x) > 4:
+        core, fw = x[2:-2], '\uff3f'
+        for y in ('_' + fw + core + '_' + fw, fw + '_' + core + fw + '_', '_' + fw + core + fw + '_', fw + fw + core + fw + fw, '_' + fw + core + fw + fw):
+            if y not in seen:        # no two ASCII low lines side by side
+                seen.add(y)
+                yield y
+    full = ''.join('\uff3f' if ch == '_' else (chr(ord(ch) - 0x20 + 0xff00) if ch.isascii() and ch.isalpha() else ch) for ch in x)
+    if full not in seen and not x.startswith('_'):
+        yield full
+
+
 def must_reject(rc):
     install()
     from tatsu.util.safeeval import is_eval_safe, safe_builtins
     import ast as _ast
     grid = []
     for pos in ATTR_POSITIONS:
-        for x in FORBIDDEN_ATTRS:
-            e = pos.format(X=x)
-            try:
-                _ast.parse(e, mode='eval')
-            except SyntaxError:
-                continue
-            grid.append(e)
+        for x0 in FORBIDDEN_ATTRS:
+            for x in spellings(x0):
+                e = pos.format(X=x)
+                try:
+                    _ast.parse(e, mode='eval')
+                except SyntaxError:
+                    continue
+                grid.append(e)
+    # the impure builtins under their other spellings, called directly and through a walrus alias
+    for name in IMPURE:
+        for sp in spellings(name):
+            if sp != name:
+                for e in (f"{sp}('x')", f"[len := {sp}, len('x')][1]", f"(lambda: {sp})()('x')"):
+                    try:
+                        _ast.parse(e, mode='eval')
+                    except SyntaxError:
+                        continue
+                    grid.append(e)
     if rc.tier != 'quick':
         # thorough: every dunder and introspection attribute any context value or builtin has, and positions nested in positions
         more = sorted({a for v in list(safe_builtins().values()) + ['t', 1, [1], {'k': 1}, (i for i in ())] for a in dir(v)
